@@ -835,7 +835,6 @@ class DocutilsRenderer(RendererProtocol):
         # create the section node
         new_section = nodes.section()
         self.add_line_and_source_path(new_section, token)
-        self.copy_attributes(token, new_section, ("class", "id"))
         # if a top level section,
         # then add classes to set default mathjax processing to false
         # we then turn it back on, on a per-node basis
@@ -849,6 +848,9 @@ class DocutilsRenderer(RendererProtocol):
         title_node = nodes.title(token.children[0].content if token.children else "")
         self.add_line_and_source_path(title_node, token)
         new_section.append(title_node)
+        # copy attributes after adding the title, so that any system message
+        # (e.g. for a duplicate id) does not precede the title in the section
+        self.copy_attributes(token, new_section, ("class", "id"))
         # render the heading children into the title
         with self.current_node_context(title_node):
             self.render_children(token)
